@@ -40,6 +40,13 @@ func evalBatchLists(c *RunCtx) *Batch {
 	}
 	list := func() *GT {
 		n := []int{0, 1, 1, 1, 2, 3, 5}[r.Intn(7)]
+		if r.Intn(6) == 0 {
+			// a list constant of the configuration, written by its name
+			if r.Bool() {
+				return &GT{Kind: "const", Val: listConsts["KLS"], Name: "KLS"}
+			}
+			return &GT{Kind: "const", Val: listConsts["KLI"], Name: "KLI"}
+		}
 		switch r.Intn(5) {
 		case 0:
 			return gvar(pick(r, []string{"li0", "ls0"}))
@@ -98,11 +105,13 @@ func evalBatchLists(c *RunCtx) *Batch {
 			}
 		}
 		mask := []int{15, 0, r.Intn(16)}[r.Intn(3)]
-		rc := &RunCfg{Opts: optSubset(mask, r.Bool())}
+		rc := &RunCfg{Opts: optSubset(mask, r.Bool()), Consts: listConsts}
 		addEval(c, b, &EvalSpec{Tree: t, RC: rc, Bind: opsEvalBind(r), DoEval: true, Tags: []string{fmt.Sprintf("subset:%d", mask), "eval-level"}})
 	}
 	return b
 }
+
+var listConsts = map[string]interface{}{"KLS": []string{"a", "b", "7", ""}, "KLI": []int64{0, 1, 2, 3}}
 
 func evalBatchOps(c *RunCtx, prop string, names []string) *Batch {
 	r := c.R
